@@ -202,6 +202,23 @@ theorem sim_call_ok_roots {w : Wiring} {t : SimTime} {roots : List Comp} {tk : T
 
 end TickerFacts
 
+/-- a successful tick knows all its roots -/
+theorem tickLevel_ok_roots {S : Static} {orc : Oracle} {fuel : Nat} {lvl : Comp} {t : SimTime}
+    {roots : List Comp} {inCh : List (Port × V)} {st : SimSt} {r : SimSt × List (Port × V)}
+    (h : tickLevel S orc fuel lvl t roots inCh st = .ok r) :
+    ∃ L, S.level lvl = some L ∧ ∀ x ∈ roots, x ∈ L.wiring.components := by
+  cases fuel with
+  | zero => rw [tickLevel] at h; cases h
+  | succ fuel =>
+    rw [tickLevel.eq_2] at h
+    split at h
+    · cases h
+    · rename_i L hL
+      split at h
+      · cases h
+      · rename_i tk ds hcall
+        exact ⟨L, hL, sim_call_ok_roots hcall⟩
+
 /-! ### post-conditions -/
 
 /-- what one tick of level `lvl` does to the observations and the `firstDone` marks. -/
@@ -276,11 +293,373 @@ theorem simAnswer_spec {S : Static} (hS : S.WF) {orc : Oracle} {fuel : Nat}
         split at h
         · -- a system component
           rename_i hsys
-          trace_state
-          sorry
+          split at h
+          · cases h
+          · rename_i st2 outCh hr
+            simp only [Except.ok.injEq, Prod.mk.injEq] at h
+            obtain ⟨rfl, _⟩ := h
+            have hcne : c ≠ "" := by
+              obtain ⟨Lc, hLc, hroots⟩ := tickLevel_ok_roots hr
+              have hext : pseudoExternal ∈ Lc.wiring.components :=
+                hroots _ (by simp [mem_sunion])
+              obtain ⟨hLc1, hLc2⟩ := Static.level_some hLc
+              rcases hS.members Lc hLc1 _ hext with h' | ⟨hne, _⟩
+              · rw [hS.pseudo_fresh.1] at h'; cases h'
+              · rwa [hLc2] at hne
+            obtain ⟨new, hobs, hnd, hown, hframe, hdone⟩ := IH _ _ _ _ _ _ _ hr
+            have hirr : ¬ S.Below c c := Static.Below.irrefl hS hcne
+            refine ⟨new, hobs, hnd, ?_, ?_, ?_⟩
+            · intro o ho
+              obtain ⟨h1, h2, h3⟩ := hown o ho
+              exact ⟨h1, h2, hpar, Or.inr ⟨hcne, h3⟩⟩
+            · intro s hs
+              refine ⟨hpar, ?_⟩
+              by_cases hsc : s = c
+              · exact Or.inl hsc
+              · by_cases hb : S.Below c s
+                · exact Or.inr ⟨hcne, hb⟩
+                · exfalso
+                  apply hs
+                  rw [hframe s hb, SimSt.sched_upsert, if_neg (Ne.symm hsc)]
+            · intro _ _ hfd
+              have hfdc : (st.sched c).firstDone = false := hfd c (Static.Own.refl S c) hsys
+              obtain ⟨hd1, hd2⟩ := hdone
+                (by
+                  intro L' hL' x hx
+                  rw [mem_sunion]; right
+                  rw [hfdc]; simpa [hL'] using hx)
+                (by
+                  intro s hb hs
+                  have hsc : c ≠ s := fun h => hirr (h ▸ hb)
+                  rw [SimSt.sched_upsert, if_neg hsc]
+                  exact hfd s (Or.inr ⟨hcne, hb⟩) hs)
+              refine ⟨?_, ?_⟩
+              · rintro x (rfl | ⟨_, hb⟩) hx
+                · exact absurd hsys (by simp [hx.2])
+                · exact hd1 x hb hx
+              · rintro s (rfl | ⟨_, hb⟩) hs
+                · rw [hframe _ hirr, SimSt.sched_upsert, if_pos rfl]
+                · exact hd2 s hb hs
         · -- a device
           rename_i hsys
-          trace_state
-          sorry
+          split at h
+          · cases h
+          · rename_i resp _
+            split at h
+            · cases h
+            · simp only [Except.ok.injEq, Prod.mk.injEq] at h
+              obtain ⟨rfl, _⟩ := h
+              have hdev : S.isDevice c := ⟨by rw [hpar]; rfl, by simpa using hsys⟩
+              have hnb : ∀ x, S.Own c x → x = c := by
+                rintro x (rfl | ⟨hne, hb⟩)
+                · rfl
+                · rcases hb.isSys hS with h | h
+                  · exact absurd h hne
+                  · exact absurd h hsys
+              refine ⟨[⟨c, t, _⟩], rfl, by simp, ?_, ?_, ?_⟩
+              · intro o ho
+                simp only [List.mem_singleton] at ho
+                subst ho
+                exact ⟨rfl, hdev, hpar, Static.Own.refl S c⟩
+              · intro s hs
+                exact absurd rfl hs
+              · intro _ _ _
+                refine ⟨fun x hx _ => by simp [hnb x hx], fun s hs hss => ?_⟩
+                rw [hnb s hs] at hss
+                exact absurd hss hsys
+
+/-! ### the loop invariant -/
+
+theorem simWake_firstDone (st : SimSt) (lvl c : Comp) (callAt : Option SimTime) (s : Comp) :
+    ((simWake st lvl c callAt).sched s).firstDone = (st.sched s).firstDone := by
+  unfold simWake
+  simp only []
+  rw [SimSt.sched_upsert]
+  split
+  · rename_i h; subst h; cases callAt <;> rfl
+  · rfl
+
+/-- invariant of `tickLoop` at level `L`, tick time `t`, roots `roots`; `st0` is the state in
+which the tick of this level began, `trace` the ghost trace of the level's ticker and `new` the
+observations made so far in this tick. -/
+structure LoopInv (S : Static) (L : Level) (t : SimTime) (roots : List Comp) (st0 : SimSt)
+    (ls : LoopSt) (trace : List (Ev V)) (new : List Obs) : Prop where
+  pre : PreInv L.wiring t roots ls.tk.toUpdate ls.pending trace
+  time : ls.tk.time = t
+  troots : ls.tk.roots = roots
+  pend_comp : ∀ d ∈ ls.pending, d.comp ∈ L.wiring.components
+  pend_input : ∀ d ∈ ls.pending, d.comp ∈ roots → ∃ ins, d = .input d.comp t ins
+  obs_eq : ls.st.obs = st0.obs ++ new
+  obs_nodup : (new.map Obs.comp).Nodup
+  /-- every observation belongs to an answered child of the level -/
+  obs_own : ∀ o ∈ new, o.time = t ∧ S.isDevice o.comp ∧
+    ∃ c, alookup S.parent c = some L.name ∧ alookup ls.tk.toUpdate c = none ∧ S.Own c o.comp
+  /-- `firstDone` changed only for what belongs to an answered child of the level -/
+  changed : ∀ s, (ls.st.sched s).firstDone ≠ (st0.sched s).firstDone →
+    ∃ c, alookup S.parent c = some L.name ∧ alookup ls.tk.toUpdate c = none ∧ S.Own c s
+  /-- in an initial tick, everything that belongs to an answered child is done -/
+  done : (∀ c ∈ L.wiring.components, c ∈ roots) →
+    (∀ s, S.Below L.name s → S.isSys s = true → (st0.sched s).firstDone = false) →
+    ∀ c ∈ extent L.wiring roots, alookup ls.tk.toUpdate c = none →
+      alookup S.parent c = some L.name →
+      (∀ x, S.Own c x → S.isDevice x → x ∈ new.map Obs.comp) ∧
+      (∀ s, S.Own c s → S.isSys s = true → (ls.st.sched s).firstDone = true)
+
+theorem LoopInv.step {S : Static} (hS : S.WF) {orc : Oracle} {fuel : Nat}
+    (IH : ∀ lvl t roots inCh st st' out,
+      tickLevel S orc fuel lvl t roots inCh st = .ok (st', out) → LevelPost S lvl t roots st st')
+    {L : Level} (hL : L ∈ S.levels) {t : SimTime} {roots : List Comp} {st0 : SimSt}
+    {inCh : List (Port × V)} {ls : LoopSt} {trace : List (Ev V)} {new : List Obs}
+    (inv : LoopInv S L t roots st0 ls trace new)
+    {d : Dispatch V} {rest : List (Dispatch V)} (hp : ls.pending = d :: rest)
+    {st' : SimSt} {outCh' changes : List (Port × V)} {callAt : Option SimTime}
+    (ha : simAnswer S orc fuel L inCh ls.st ls.outCh d = .ok (st', outCh', changes, callAt))
+    {tk' : Ticker V} {ds : List (Dispatch V)}
+    (hprop : ls.tk.propagate L.wiring d.comp d.time changes = .ok (tk', ds)) :
+    ∃ trace' new', LoopInv S L t roots st0
+      ⟨tk', rest ++ ds, outCh', simWake st' L.name d.comp callAt⟩ trace' new' := by
+  obtain ⟨hne, htime, hsl, htu, htk, hroots⟩ := sim_propagate_eq_ok hprop
+  have hdm : d ∈ ls.pending := by rw [hp]; simp
+  have hsub : ∀ d' ∈ rest, d' ∈ ls.pending := by
+    intro d' h'; rw [hp]; exact List.mem_cons_of_mem _ h'
+  have hd0 : ls.pending[0]? = some d := by rw [hp]; rfl
+  have h0 : alookup ls.tk.toUpdate d.comp = some true := (inv.pre.pend_flag _).1 ⟨d, hdm, rfl⟩
+  have hdt : d.time = t := htime.trans inv.time
+  have hpre := (inv.pre.answer hd0 changes).schedule
+    (tk := ls.tk.afterAnswer L.wiring d.comp changes) inv.time hsl
+  have hnone : ∀ x, alookup tk'.toUpdate x = none ↔ x = d.comp ∨ alookup ls.tk.toUpdate x = none := by
+    intro x
+    rw [htu, alookup_markDispatched_eq_none, alookup_aerase inv.pre.nodup]
+    by_cases hx : x = d.comp <;> simp [hx]
+  obtain ⟨new1, hobs1, hnd1, hown1, hch1, hdone1⟩ :=
+    simAnswer_spec hS IH hL (inv.pend_comp d hdm) ha
+  refine ⟨trace ++ [Ev.answer d.comp changes] ++ ds.map Ev.dispatch, new ++ new1, ?_⟩
+  exact
+    { pre := by
+        have := hpre.1
+        rw [hp] at this
+        show PreInv L.wiring t roots tk'.toUpdate (rest ++ ds) _
+        rw [htu]
+        exact this
+      time := htk.trans inv.time
+      troots := hroots.trans inv.troots
+      pend_comp := by
+        intro d' hd'
+        rcases List.mem_append.1 hd' with hd' | hd'
+        · exact inv.pend_comp d' (hsub d' hd')
+        · exact (sim_scheduleLoop_mem hsl hd').1
+      pend_input := by
+        intro d' hd' hr
+        rcases List.mem_append.1 hd' with hd' | hd'
+        · exact inv.pend_input d' (hsub d' hd') hr
+        · obtain ⟨ins, hins⟩ := (sim_scheduleLoop_mem hsl hd').2
+            (by show d'.comp ∈ ls.tk.roots; rw [inv.troots]; exact hr)
+          have ht' : (ls.tk.afterAnswer L.wiring d.comp changes).time = t := inv.time
+          rw [ht'] at hins
+          exact ⟨ins, hins⟩
+      obs_eq := by
+        show st'.obs = _
+        rw [hobs1, inv.obs_eq, List.append_assoc]
+      obs_nodup := by
+        rw [List.map_append, List.nodup_append]
+        refine ⟨inv.obs_nodup, hnd1, ?_⟩
+        intro a ha b hb hab
+        subst hab
+        obtain ⟨o, ho, rfl⟩ := List.mem_map.1 ha
+        obtain ⟨o1, ho1, he⟩ := List.mem_map.1 hb
+        obtain ⟨_, _, c, hc, hcn, hown⟩ := inv.obs_own o ho
+        obtain ⟨_, _, hpar, hown'⟩ := hown1 o1 ho1
+        rw [he] at hown'
+        have := Static.Own.unique hS hc hpar hown hown'
+        subst this
+        rw [h0] at hcn; cases hcn
+      obs_own := by
+        intro o ho
+        rcases List.mem_append.1 ho with ho | ho
+        · obtain ⟨h1, h2, c, hc, hcn, hown⟩ := inv.obs_own o ho
+          exact ⟨h1, h2, c, hc, (hnone c).2 (Or.inr hcn), hown⟩
+        · obtain ⟨h1, h2, hpar, hown⟩ := hown1 o ho
+          exact ⟨h1.trans hdt, h2, d.comp, hpar, (hnone _).2 (Or.inl rfl), hown⟩
+      changed := by
+        intro s hs
+        rw [simWake_firstDone] at hs
+        by_cases h1 : (st'.sched s).firstDone = (ls.st.sched s).firstDone
+        · rw [h1] at hs
+          obtain ⟨c, hc, hcn, hown⟩ := inv.changed s hs
+          exact ⟨c, hc, (hnone c).2 (Or.inr hcn), hown⟩
+        · obtain ⟨hpar, hown⟩ := hch1 s h1
+          exact ⟨d.comp, hpar, (hnone _).2 (Or.inl rfl), hown⟩
+      done := by
+        intro hall hfd c hce hcn hcp
+        rcases (hnone c).1 hcn with rfl | hcn'
+        · have hin : ∃ ins, d = .input d.comp d.time ins := by
+            rw [hdt]; exact inv.pend_input d hdm (hall _ (inv.pend_comp d hdm))
+          have hfd' : ∀ s, S.Own d.comp s → S.isSys s = true → (ls.st.sched s).firstDone = false := by
+            intro s hso hss
+            have : (ls.st.sched s).firstDone = (st0.sched s).firstDone := by
+              apply Classical.byContradiction
+              intro hne'
+              obtain ⟨c', hc', hcn', hown'⟩ := inv.changed s hne'
+              have := Static.Own.unique hS hc' hcp hown' hso
+              subst this
+              rw [h0] at hcn'; cases hcn'
+            rw [this]
+            exact hfd s (hso.below hcp) hss
+          obtain ⟨r1, r2⟩ := hdone1 hin hcp hfd'
+          refine ⟨fun x hx hxd => ?_, fun s hs hss => ?_⟩
+          · rw [List.map_append]; exact List.mem_append_right _ (r1 x hx hxd)
+          · rw [simWake_firstDone]; exact r2 s hs hss
+        · obtain ⟨r1, r2⟩ := inv.done hall hfd c hce hcn' hcp
+          refine ⟨fun x hx hxd => ?_, fun s hs hss => ?_⟩
+          · rw [List.map_append]; exact List.mem_append_left _ (r1 x hx hxd)
+          · rw [simWake_firstDone]
+            have : (st'.sched s).firstDone = (ls.st.sched s).firstDone := by
+              apply Classical.byContradiction
+              intro hne'
+              obtain ⟨hpar', hown'⟩ := hch1 s hne'
+              have := Static.Own.unique hS hcp hpar' hs hown'
+              subst this
+              rw [h0] at hcn'; cases hcn'
+            rw [this]
+            exact r2 s hs hss }
+
+/-- a finished loop establishes the post-condition of the level's tick -/
+theorem LoopInv.finish {S : Static} (hS : S.WF) {L : Level} {lvl : Comp} (hLv : S.level lvl = some L)
+    {t : SimTime} {roots : List Comp} {st0 : SimSt} {ls : LoopSt} {trace : List (Ev V)}
+    {new : List Obs} (inv : LoopInv S L t roots st0 ls trace new) (htu : ls.tk.toUpdate = []) :
+    LevelPost S lvl t roots st0 ls.st := by
+  obtain ⟨hL, hname⟩ := Static.level_some hLv
+  subst hname
+  refine ⟨new, inv.obs_eq, inv.obs_nodup, ?_, ?_, ?_⟩
+  · intro o ho
+    obtain ⟨h1, h2, c, hc, _, hown⟩ := inv.obs_own o ho
+    exact ⟨h1, h2, hown.below hc⟩
+  · intro s hnb
+    apply Classical.byContradiction
+    intro hne
+    obtain ⟨c, hc, _, hown⟩ := inv.changed s hne
+    exact hnb (hown.below hc)
+  · intro hall hfd
+    have key : ∀ x, S.Below L.name x → ∃ c, S.Own c x ∧ c ∈ extent L.wiring roots ∧
+        alookup ls.tk.toUpdate c = none ∧ alookup S.parent c = some L.name := by
+      intro x hx
+      obtain ⟨c, hc, hown⟩ := hx.top
+      obtain ⟨L', hL', hcm, _⟩ := hS.parent_level c L.name hc
+      rw [hLv] at hL'; cases hL'
+      exact ⟨c, hown, sim_root_mem_extent _ (hall L hLv c hcm), by rw [htu]; rfl, hc⟩
+    refine ⟨fun x hx hxd => ?_, fun s hs hss => ?_⟩
+    · obtain ⟨c, hown, hce, hcn, hc⟩ := key x hx
+      exact (inv.done (hall L hLv) hfd c hce hcn hc).1 x hown hxd
+    · obtain ⟨c, hown, hce, hcn, hc⟩ := key s hs
+      exact (inv.done (hall L hLv) hfd c hce hcn hc).2 s hown hss
+
+theorem tickLoop_spec {S : Static} (hS : S.WF) {orc : Oracle} {fuel : Nat}
+    (IH : ∀ lvl t roots inCh st st' out,
+      tickLevel S orc fuel lvl t roots inCh st = .ok (st', out) → LevelPost S lvl t roots st st')
+    {L : Level} {lvl : Comp} (hLv : S.level lvl = some L) {t : SimTime} {roots : List Comp}
+    {st0 : SimSt} {inCh : List (Port × V)} :
+    ∀ (steps : Nat) (ls : LoopSt) (trace : List (Ev V)) (new : List Obs),
+      LoopInv S L t roots st0 ls trace new →
+      ∀ st' out, tickLoop S orc fuel steps L inCh ls = .ok (st', out) →
+        LevelPost S lvl t roots st0 st' := by
+  intro steps
+  induction steps with
+  | zero =>
+    intro ls trace new _ st' out h
+    rw [tickLoop_zero] at h; cases h
+  | succ steps ih =>
+    intro ls trace new inv st' out h
+    cases hp : ls.pending with
+    | nil =>
+      rw [tickLoop_nil _ _ _ _ _ _ _ hp] at h
+      split at h
+      · rename_i he
+        simp only [Except.ok.injEq, Prod.mk.injEq] at h
+        obtain ⟨rfl, _⟩ := h
+        exact inv.finish hS hLv (by simpa using he)
+      · cases h
+    | cons d rest =>
+      rw [tickLoop_cons _ _ _ _ _ _ _ _ _ hp] at h
+      split at h
+      · cases h
+      · rename_i st1 outCh1 changes callAt ha
+        split at h
+        · cases h
+        · rename_i tk' ds hprop
+          obtain ⟨trace', new', inv'⟩ :=
+            inv.step hS IH (Static.level_some hLv).1 hp ha hprop
+          exact ih _ trace' new' inv' st' out h
+
+/-- **post-condition of one tick of one scheduler level** -/
+theorem tickLevel_post {S : Static} (hS : S.WF) (orc : Oracle) :
+    ∀ (fuel : Nat) (lvl : Comp) (t : SimTime) (roots : List Comp) (inCh : List (Port × V))
+      (st st' : SimSt) (out : List (Port × V)),
+      tickLevel S orc fuel lvl t roots inCh st = .ok (st', out) → LevelPost S lvl t roots st st' := by
+  intro fuel
+  induction fuel with
+  | zero =>
+    intro lvl t roots inCh st st' out h
+    rw [tickLevel] at h; cases h
+  | succ fuel IH =>
+    intro lvl t roots inCh st st' out h
+    rw [tickLevel.eq_2] at h
+    split at h
+    · cases h
+    · rename_i L hLv
+      split at h
+      · cases h
+      · rename_i tk ds hcall
+        obtain ⟨hs, htu, htime, hroots⟩ := sim_call_eq_ok hcall
+        have hpre := (PreInv.start (Val := V) L.wiring t roots).schedule rfl hs
+        refine tickLoop_spec hS IH hLv _ ⟨tk, ds, [], st⟩ (ds.map Ev.dispatch) [] ?_ st' out h
+        have hnone : ∀ c ∈ extent L.wiring roots, alookup tk.toUpdate c ≠ none := by
+          intro c hc
+          rw [htu, Ne, alookup_markDispatched_eq_none, alookup_eq_none_iff, startTick_toUpdate]
+          exact fun h => h hc
+        exact
+          { pre := by
+              show PreInv L.wiring t roots tk.toUpdate ds _
+              rw [htu]
+              simpa using hpre.1
+            time := htime
+            troots := hroots
+            pend_comp := fun d hd => (sim_scheduleLoop_mem hs hd).1
+            pend_input := fun d hd hr => (sim_scheduleLoop_mem hs hd).2 hr
+            obs_eq := by simp
+            obs_nodup := by simp
+            obs_own := by simp
+            changed := fun s hs => absurd rfl hs
+            done := fun _ _ c hce hcn _ => absurd hcn (hnone c hce) }
+
+/-! ### counting updates -/
+
+theorem sim_filter_comp_le_one {new : List Obs} (h : (new.map Obs.comp).Nodup) (d : Comp) :
+    (new.filter (fun o => o.comp == d)).length ≤ 1 := by
+  induction new with
+  | nil => simp
+  | cons o new ih =>
+    simp only [List.map_cons, List.nodup_cons] at h
+    simp only [List.filter_cons]
+    by_cases hd : o.comp = d
+    · have : new.filter (fun o => o.comp == d) = [] := by
+        rw [List.filter_eq_nil_iff]
+        intro o' ho'
+        simp only [beq_iff_eq]
+        intro h'
+        exact h.1 (List.mem_map.2 ⟨o', ho', h'.trans hd.symm⟩)
+      simp [hd, this]
+    · simpa [hd] using ih h.2
+
+theorem SimSt.updates_of_obs {st st' : SimSt} {new : List Obs} (h : st'.obs = st.obs ++ new)
+    (d : Comp) : st'.updates d = st.updates d + (new.filter (fun o => o.comp == d)).length := by
+  simp [SimSt.updates, h, List.filter_append]
+
+theorem sim_filter_comp_eq_one {new : List Obs} (h : (new.map Obs.comp).Nodup) {d : Comp}
+    (hd : d ∈ new.map Obs.comp) : (new.filter (fun o => o.comp == d)).length = 1 := by
+  have h1 := sim_filter_comp_le_one h d
+  obtain ⟨o, ho, hod⟩ := List.mem_map.1 hd
+  have h2 : 0 < (new.filter (fun o => o.comp == d)).length :=
+    List.length_pos_of_mem (List.mem_filter.2 ⟨ho, by simp [hod]⟩)
+  omega
 
 end Tickit
